@@ -244,7 +244,14 @@ class Check(PropertyCheck):
                   "which requests match) — comparing every outcome, count, the buckets in dict order and the recorded list; "
                   "plus _hash vs keyOf vs the statement's field list on request pairs. served_response_is_recorded: in every "
                   "history, including edits of served copies by later addons, what is served is a recording as it was loaded.")
-    level_note = ("ORACLE LENIENCIES (all; each tried by known_selftest on hand-written observations at every run): (a) Skip() "
+    level_note = ("PROOF SIDE, what it does not say (cross-audit round 6): 'unmatched requests are forwarded, killed or answered "
+                  "with the configured status' holds while replay is ACTIVE; once every recording has been served the flowmap is "
+                  "empty, replay is inactive, and the next request is forwarded whatever server_replay_extra says (`if self.flowmap:`; "
+                  "first conjunct of unmatched_as_configured) - consistent with the statement's 'while server replay is active'. "
+                  "Conjunct 1 of served_response_is_recorded (an `edit` step leaves the addon's state unchanged) is true by the "
+                  "definition of `step`: the model has no write path into a recording; conjuncts 2 and 3 (what is served is a loaded "
+                  "recording; the pending list only shrinks) are the proved content, and that the real addon hands out copies is "
+                  "checked by the oracle against the case's description of the recorded response. ORACLE LENIENCIES (all; each tried by known_selftest on hand-written observations at every run): (a) Skip() "
                   "only for cases with dangling indices (after shrinking); (b) `served only if keys equal` uses the statement's "
                   "key, `a matching recording must be served` uses the key refined by the kind of form — requests that differ "
                   "only in multipart-vs-urlencoded representation of the same non-ignored fields may or may not match (the code "
